@@ -1146,6 +1146,20 @@ func vspRunScenario(line string) (out string) {
 	return res
 }
 
+// vspRunWithWatchdog never lets one scenario block the batch: after 75 s the scenario is given up (reported
+// as a harness error, never a verdict), its node is abandoned and the next scenario gets a fresh one.
+func vspRunWithWatchdog(line string) string {
+	done := make(chan string, 1)
+	go func() { done <- vspRunScenario(line) }()
+	select {
+	case r := <-done:
+		return r
+	case <-time.After(75 * time.Second):
+		vspTheWorld = nil
+		return "HARNESS-ERROR scenario watchdog (75s)"
+	}
+}
+
 func TestVerifSubProto(t *testing.T) {
 	in, err := os.Open(os.Getenv("VERIF_OPS"))
 	if err != nil {
@@ -1167,7 +1181,7 @@ func TestVerifSubProto(t *testing.T) {
 			fmt.Fprintln(w, "#")
 			continue
 		}
-		fmt.Fprintln(w, vspRunScenario(line))
+		fmt.Fprintln(w, vspRunWithWatchdog(line))
 		w.Flush()
 	}
 }
